@@ -151,21 +151,11 @@ Proof.
   apply H8. induction l as [|x l IHl]; constructor; [apply IH|apply IHl].
 Qed.
 
-Lemma tv_eqb_eq a : forall b, tv_eqb a b = true -> a = b.
-Proof.
-  induction a using tv_ind'; intros [ ] Hb; cbn in Hb; try discriminate;
-    try (apply String.eqb_eq in Hb; congruence);
-    try (apply Z.eqb_eq in Hb; congruence);
-    try (apply Bool.eqb_prop in Hb; congruence).
-  - apply andb_true_iff in Hb as [H1 H2]. apply Z.eqb_eq in H1, H2. congruence.
-  - f_equal. revert l0 Hb. induction H as [|x l Hx Hl IH]; intros [|y l'] Hb; try discriminate; [reflexivity|].
-    apply andb_true_iff in Hb as [H1 H2]. f_equal; [now apply Hx|now apply IH].
-Qed.
-
-Lemma leafrec_eqb_val a b : leafrec_eqb a b = true -> lr_ts a = lr_ts b /\ lr_val a = lr_val b.
+Lemma leafrec_eqb_val a b :
+  leafrec_eqb a b = true -> lr_ts a = lr_ts b /\ tv_eqb (lr_val a) (lr_val b) = true.
 Proof.
   unfold leafrec_eqb. rewrite !andb_true_iff. intros [[[H1 _] _] H4].
-  apply Z.eqb_eq in H1. split; [assumption|now apply tv_eqb_eq].
+  apply Z.eqb_eq in H1. split; assumption.
 Qed.
 
 (** * The relay invariant *)
@@ -415,9 +405,9 @@ Qed.
 Lemma cache_delete_one_none ts pre w d : sub_none (w_sub (cache_delete_one ts pre w d)) = sub_none (w_sub w).
 Proof.
   unfold cache_delete_one. destruct (w_fault w); [reflexivity|].
-  destruct (join_prefix_and_path _ _) as [[|h tl]|]; try reflexivity.
-  destruct (String.eqb h meta_root); [reflexivity|]. cbn [w_sub].
-  generalize (snd (delete_cond (w_tree w) (h :: tl)
+  destruct (join_prefix_and_path _ _) as [idx0|]; try reflexivity.
+  destruct (match idx0 with [] => false | h :: _ => String.eqb h meta_root end); [reflexivity|]. cbn [w_sub].
+  generalize (snd (delete_cond (w_tree w) idx0
      (fun g => match hget (w_heap w) g with Some r => lr_ts r <? ts | None => false end))).
   intros l. generalize (w_sub w). induction l as [|pg l IH]; intros o; cbn [fold_left]; [reflexivity|].
   rewrite IH. destruct (hget (w_heap w) (snd pg)); [apply feed_del_none|reflexivity].
@@ -425,7 +415,11 @@ Qed.
 
 Lemma ingest_sub_none st n it : sub_none (ps_sub (ingest st n it)) = sub_none (ps_sub st).
 Proof.
-  unfold ingest. destruct (ps_fault st); [reflexivity|]. destruct it as [|nt]; [reflexivity|].
+  unfold ingest. destruct (ps_fault st); [reflexivity|]. destruct it as [|nt|]; [reflexivity| |].
+  2:{ unfold cache_reset. destruct (assoc n (ps_cache st)) as [t|]; [|reflexivity]. cbn [ps_sub].
+      generalize (ps_sub st). generalize (match children_at t [] with
+         | Some ks => filter (fun k => negb (String.eqb k meta_root)) ks | None => [] end).
+      induction l as [|r0 l IH]; intros o; cbn [fold_left]; [reflexivity|]. now rewrite IH, feed_del_none. }
   destruct (n_prefix (stamp n nt)) as [pre|]; [|reflexivity].
   destruct (assoc n (ps_cache st)) as [t|]; [|reflexivity]. cbn [ps_sub].
   unfold target_gnmi_update.
@@ -447,6 +441,7 @@ Variable Q Qr : path.                  (* the registered query *)
 Hypothesis Keys_gf : forall a, Keys a -> glob_free a = true.
 Hypothesis Vals_dec : forall v, Vals v -> to_scalar v <> None.
 Hypothesis Vals_canon : forall a b, Vals a -> Vals b -> tv_equal a b = true -> to_scalar a = to_scalar b.
+Hypothesis Vals_peq : forall a b, Vals a -> Vals b -> tv_eqb a b = true -> a = b.
 Hypothesis Q_eq : Q = name :: Qr.
 Hypothesis Q_gf : glob_free Q = true.
 Hypothesis Q_above : forall k, Keys k -> strict_prefix (name :: k) Q = false.
@@ -794,8 +789,8 @@ Proof.
       apply ninv_ext with (TF := TF); [|constructor; assumption].
       intros k. rewrite (tfupd_set TF (idx r)) by (now rewrite Htf). unfold tfset.
       destruct (path_eqb_spec k (idx r)) as [->|]; [|reflexivity].
-      rewrite Htf. apply andb_true_iff in E2 as [_ E2]. destruct (leafrec_eqb_val _ _ E2) as [-> ->].
-      reflexivity. }
+      rewrite Htf. apply andb_true_iff in E2 as [_ E2]. destruct (leafrec_eqb_val _ _ E2) as [-> E3].
+      now rewrite (Vals_peq _ _ (ro_val old Hoko) (ro_val r Hr) E3). }
     assert (Htree : forall k g0, lookup T k = Some g0 ->
        (g0 < gen)%nat /\ exists r0, hget (hset H g r) g0 = Some r0 /\ rec_ok r0 /\ idx r0 = k /\
           tfset TF (idx r) (lr_ts r) (lr_val r) k = Some (lr_ts r0, lr_val r0)).
@@ -1317,6 +1312,7 @@ Qed.
 Definition item_good (it : item) : Prop :=
   match it with
   | ISync => True
+  | IReset => False          (* one uninterrupted session: see relay_sessions in Props/C01.v *)
   | IUpd n =>
       g_origin (spre n) <> meta_root /\
       forall u, In u (n_updates n) ->
@@ -1325,13 +1321,13 @@ Definition item_good (it : item) : Prop :=
 
 Definition tf_item (TF : tfun) (it : item) : tfun :=
   match it with
-  | ISync => TF
+  | ISync | IReset => TF
   | IUpd n => tf_deletes (tf_updates TF (spre n) (n_ts n) (n_updates n)) (spre n) (n_ts n) (n_deletes n)
   end.
 
 Definition pf_item (TF : tfun) (it : item) : Prop :=
   match it with
-  | ISync => True
+  | ISync | IReset => True
   | IUpd n => pf_upds TF (spre n) (n_ts n) (n_updates n)
   end.
 
@@ -1355,7 +1351,7 @@ Lemma ingest_own st TF it :
   pinv (ingest st name it) (tf_item TF it).
 Proof.
   intros [Hf (T & HT & Hn)] Hg Hpfi. unfold ingest. rewrite Hf.
-  destruct it as [|n]; [split; eauto|].
+  destruct it as [|n|]; [split; eauto| |contradiction].
   rewrite stamp_spre. cbn [n_prefix]. rewrite HT. destruct Hg as [Hm Hus].
   pose proof (noti_step {| w_tree := T; w_heap := ps_heap st; w_gen := ps_gen st; w_sub := ps_sub st; w_fault := None |}
                 TF (spre n) (n_ts n) (n_updates n) (n_deletes n)
@@ -1651,7 +1647,7 @@ Qed.
 
 Lemma NoDup_replay_step f it : NoDup (keys f) -> NoDup (keys (replay_step f it)).
 Proof.
-  destruct it as [|n]; cbn [replay_step]; [auto|]. intros Hnd.
+  destruct it as [|n|]; cbn [replay_step]; [auto| |intros _; constructor]. intros Hnd.
   assert (H1 : forall ds f, NoDup (keys f) ->
      NoDup (keys (fold_left (fun f d => tdel f (tkey (n_prefix n) d) (n_ts n)) ds f))).
   { induction ds as [|d ds IH]; cbn; intros f0 H0; [assumption|]. apply IH. now apply NoDup_keys_filter. }
@@ -1673,6 +1669,7 @@ Variable name : string.
 Definition no_porigin (it : item) : Prop :=
   match it with
   | ISync => True
+  | IReset => False          (* one session *)
   | IUpd n =>
       item_prefix_origin it = "" ->
       (forall u, In u (n_updates n) -> g_origin (fst u) = "") /\
@@ -1796,7 +1793,7 @@ Proof.
     apply (IH (c ++ [it]) (replay_step F it)); auto.
     + now apply NoDup_replay_step.
     + intros k0. unfold tf_run. rewrite fold_left_app. cbn [fold_left]. fold (tf_run name c).
-      destruct it as [|n]; [apply HR|]. now apply item_equiv.
+      destruct it as [|n|]; [apply HR| |contradiction]. now apply item_equiv.
 Qed.
 
 (** the executable check of PipelineCheck ([prefix_free_from]) implies the
@@ -1835,11 +1832,11 @@ Proof.
   assert (Hstep : tf_item name (tf_run name c) it = tf_run name (c ++ [it]))
     by (unfold tf_run; now rewrite fold_left_app).
   rewrite Hstep. split.
-  - destruct it as [|n]; [exact I|]. cbn [pf_item]. apply (pf_upds_of_check n _ _ F Hdom); [|exact Hpf1].
+  - destruct it as [|n|]; [exact I| |exact I]. cbn [pf_item]. apply (pf_upds_of_check n _ _ F Hdom); [|exact Hpf1].
     intros u Hu. apply skey_tkey. intros E. now apply (proj1 (Hn1 E)).
   - apply (IH (c ++ [it]) (replay_step F it)); auto.
     + now apply NoDup_replay_step.
-    + intros k0. rewrite <- Hstep. destruct it as [|n]; [apply HR|]. now apply item_equiv.
+    + intros k0. rewrite <- Hstep. destruct it as [|n|]; [apply HR| |contradiction]. now apply item_equiv.
 Qed.
 End Equiv.
 
@@ -1896,6 +1893,7 @@ Theorem relay_single (name : string) (Keys : path -> Prop) (Vals : tv -> Prop) (
   (forall a : path, Keys a -> glob_free a = true) ->
   (forall v : tv, Vals v -> to_scalar v <> None) ->
   (forall a b : tv, Vals a -> Vals b -> tv_equal a b = true -> to_scalar a = to_scalar b) ->
+  (forall a b : tv, Vals a -> Vals b -> tv_eqb a b = true -> a = b) ->
   Q = name :: Qr -> glob_free Q = true ->
   (forall k : path, Keys k -> strict_prefix (name :: k) Q = false) ->
   name <> "" ->
@@ -1907,10 +1905,10 @@ Theorem relay_single (name : string) (Keys : path -> Prop) (Vals : tv -> Prop) (
   exists l, pipeline cfg [(name, s)] cq sched = VLeaves l /\
             Permutation l (selects Q (stamp_paths name (replay s))).
 Proof.
-  intros K2 V1 V2 HQ HQg HQa Hne Hq Ht Hc Hgood Hno Hpfc Hv Hin.
+  intros K2 V1 V2 V3 HQ HQg HQa Hne Hq Ht Hc Hgood Hno Hpfc Hv Hin.
   assert (Hpf : pf_items name tf0 s).
   { apply (pf_items_of_check name s [] []); auto. constructor. }
-  destruct (relay_tf name Keys Vals Q Qr K2 V1 V2 HQ HQg HQa Hne cq Hq Ht Hc s Hgood Hpf cfg sched Hv Hin)
+  destruct (relay_tf name Keys Vals Q Qr K2 V1 V2 V3 HQ HQg HQa Hne cq Hq Ht Hc s Hgood Hpf cfg sched Hv Hin)
     as (l & Hp & Hnd & Hl).
   exists l. split; [assumption|]. now apply (leaves_of_tf name Q s l).
 Qed.
@@ -2105,7 +2103,7 @@ Record ginv (st : pstate) : Prop := {
 }.
 
 Definition item_nometa (n : string) (it : item) : Prop :=
-  match it with IUpd nt => g_origin (spre n nt) <> meta_root | ISync => True end.
+  match it with IUpd nt => g_origin (spre n nt) <> meta_root | ISync => True | IReset => False end.
 
 Lemma ingest_ginv st n it :
   ginv st -> item_nometa n it ->
@@ -2121,7 +2119,7 @@ Proof.
                   forall n3, n3 <> n -> assoc n3 (ps_cache st) = assoc n3 (ps_cache st)).
   { split; [constructor; assumption|]. split; [apply heap_delta_refl|]. split; [lia|].
     split; [apply sub_frame_refl|reflexivity]. }
-  destruct it as [|nt]; [exact Hsame|]. rewrite (stamp_spre n nt). cbn [n_prefix].
+  destruct it as [|nt|]; [exact Hsame| |contradiction]. rewrite (stamp_spre n nt). cbn [n_prefix].
   destruct (assoc n (ps_cache st)) as [t|] eqn:Ht; [|exact Hsame].
   destruct (G3 n (assoc_Some_key _ _ _ Ht)) as [Hne Hng]. destruct (G4 _ _ Ht) as [Hwf Hown].
   set (w0 := {| w_tree := t; w_heap := ps_heap st; w_gen := ps_gen st; w_sub := ps_sub st; w_fault := None |}).
@@ -2149,6 +2147,7 @@ Variable Q Qr : path.
 Hypothesis Keys_gf : forall a, Keys a -> glob_free a = true.
 Hypothesis Vals_dec : forall v, Vals v -> to_scalar v <> None.
 Hypothesis Vals_canon : forall a b, Vals a -> Vals b -> tv_equal a b = true -> to_scalar a = to_scalar b.
+Hypothesis Vals_peq : forall a b, Vals a -> Vals b -> tv_eqb a b = true -> a = b.
 Hypothesis Q_eq : Q = name :: Qr.
 Hypothesis Q_gf : glob_free Q = true.
 Hypothesis Q_above : forall k, Keys k -> strict_prefix (name :: k) Q = false.
@@ -2195,7 +2194,8 @@ Qed.
 
 Lemma ingest_not_target st n it : assoc n (ps_cache st) = None -> ingest st n it = st.
 Proof.
-  intros Hn. unfold ingest. destruct (ps_fault st); [reflexivity|]. destruct it as [|nt]; [reflexivity|].
+  intros Hn. unfold ingest. destruct (ps_fault st); [reflexivity|].
+  destruct it as [|nt|]; [reflexivity| |unfold cache_reset; now rewrite Hn].
   destruct (n_prefix (stamp n nt)); [|reflexivity]. now rewrite Hn.
 Qed.
 
@@ -2262,7 +2262,7 @@ Inductive minv (rs : run_state) : Prop :=
              \/ (rn_subres rs = Some SubOk /\ ps_sub (rn_st rs) <> None)).
 
 Lemma item_good_nometa it : item_good name Keys Vals it -> item_nometa name it.
-Proof. destruct it as [|nt]; cbn; [auto|]. now intros [H _]. Qed.
+Proof. destruct it as [|nt|]; cbn; [auto| |auto]. now intros [H _]. Qed.
 
 Lemma sub_consistent_ingest st n it subres :
   (subres = None /\ ps_sub st = None) \/ (subres = Some SubOk /\ ps_sub st <> None) ->
@@ -2464,6 +2464,7 @@ Theorem relay_multi (name : string) (Keys : path -> Prop) (Vals : tv -> Prop) (Q
   (forall a : path, Keys a -> glob_free a = true) ->
   (forall v : tv, Vals v -> to_scalar v <> None) ->
   (forall a b : tv, Vals a -> Vals b -> tv_equal a b = true -> to_scalar a = to_scalar b) ->
+  (forall a b : tv, Vals a -> Vals b -> tv_eqb a b = true -> a = b) ->
   Q = name :: Qr -> glob_free Q = true ->
   (forall k : path, Keys k -> strict_prefix (name :: k) Q = false) ->
   sub_query cq = Q -> g_target (cq_prefix cq) = name ->
@@ -2477,12 +2478,12 @@ Theorem relay_multi (name : string) (Keys : path -> Prop) (Vals : tv -> Prop) (Q
   exists l, pipeline cfg ss cq sched = VLeaves l /\
             Permutation l (selects Q (stamp_paths name (replay s))).
 Proof.
-  intros K2 V1 V2 HQ HQg HQa Hq Ht Hc (Hgood & Hno & Hpfc) Hv Hndt Hng Hin Hnds Hs Hok.
+  intros K2 V1 V2 V3 HQ HQg HQa Hq Ht Hc (Hgood & Hno & Hpfc) Hv Hndt Hng Hin Hnds Hs Hok.
   assert (Hne : name <> "").
   { apply in_map_iff in Hin as ([n0 t] & E & Hnt). cbn in E. subst n0. now destruct (validate_In cfg name t Hv Hnt). }
   assert (Hpf : pf_items name tf0 s).
   { apply (pf_items_of_check name s [] []); auto. constructor. }
-  destruct (relay_multi_tf name Keys Vals Q Qr K2 V1 V2 HQ HQg HQa Hne cq Hq Ht Hc s Hgood Hpf
+  destruct (relay_multi_tf name Keys Vals Q Qr K2 V1 V2 V3 HQ HQg HQa Hne cq Hq Ht Hc s Hgood Hpf
               cfg ss sched Hv Hndt Hng Hin Hnds Hs Hok) as (l & Hp & Hnd & Hl).
   exists l. split; [assumption|]. now apply (leaves_of_tf name Q s l).
 Qed.
@@ -2496,6 +2497,7 @@ Theorem relay_faithful_all (name : string) (Vals : tv -> Prop) (Q Qr : path)
     (cq : cquery) (s : list item) (cfg : config) (ss : streams) (sched : list action) :
   (forall v : tv, Vals v -> to_scalar v <> None) ->
   (forall a b : tv, Vals a -> Vals b -> tv_equal a b = true -> to_scalar a = to_scalar b) ->
+  (forall a b : tv, Vals a -> Vals b -> tv_eqb a b = true -> a = b) ->
   Q = name :: Qr -> glob_free Q = true ->
   sub_query cq = Q -> g_target (cq_prefix cq) = name ->
   complete_path (cq_prefix cq) (cq_path cq) = Some Qr ->
@@ -2508,7 +2510,7 @@ Theorem relay_faithful_all (name : string) (Vals : tv -> Prop) (Q Qr : path)
   exists l, pipeline cfg ss cq sched = VLeaves l /\
             Permutation l (selects Q (stamp_paths name (replay s))).
 Proof.
-  intros V1 V2 HQ HQg Hq Ht Hc Hs. intros.
+  intros V1 V2 V3 HQ HQg Hq Ht Hc Hs. intros.
   eapply (relay_multi name (fun k => glob_free k = true /\ strict_prefix (name :: k) Q = false) Vals Q Qr);
     eauto; cbn; tauto.
 Qed.
@@ -2550,6 +2552,8 @@ Proof.
   destruct (relay_faithful_all "dev1" (fun v => In v valset) ["dev1"] [] q s1 cfg ss sched)
     as (l & Hl & Hp).
   - intros v Hv. cbn in Hv. repeat (destruct Hv as [<-|Hv]; [discriminate|]). contradiction.
+  - intros a b Ha Hb. cbn in Ha, Hb.
+    repeat (destruct Ha as [<-|Ha]; [repeat (destruct Hb as [<-|Hb]; [cbn; congruence|]); contradiction|]). contradiction.
   - intros a b Ha Hb. cbn in Ha, Hb.
     repeat (destruct Ha as [<-|Ha]; [repeat (destruct Hb as [<-|Hb]; [cbn; congruence|]); contradiction|]). contradiction.
   - reflexivity.
@@ -2653,6 +2657,23 @@ Lemma rejected_update_keeps_deletes :
   pipeline cfg1 [("dev1", s_rejected)] q [AIngest "dev1"; AIngest "dev1"; ASubscribe; ASend; ASend; ASend]
     = VLeaves [(["dev1"; "openconfig"; "a"; "y"], SInt 2)] /\
   selects ["dev1"] (stamp_paths "dev1" (replay s_rejected)) = [(["dev1"; "openconfig"; "a"; "y"], SInt 2)].
+Proof. vm_compute. split; reflexivity. Qed.
+
+(** a stream failure in the middle of the relay: the first session leaves x and
+    y, the client is subscribed and has received them, the stream breaks (the
+    collector resets the target), the second session re-sends only y, edited and
+    with a SMALLER timestamp.  The client converges to the new session's state. *)
+Definition s_sessions : list item :=
+  [upd 100 None (gp "" [el "a"; el "x"]) (TVInt 1);
+   upd 110 None (gp "" [el "a"; el "y"]) (TVInt 2);
+   IReset;
+   upd 50 None (gp "" [el "a"; el "y"]) (TVInt 7)].
+
+Lemma reconnect_example :
+  pipeline cfg1 [("dev1", s_sessions)] q
+      [AIngest "dev1"; AIngest "dev1"; ASubscribe; ASend; ASend; ASend; AIngest "dev1"; ASend; AIngest "dev1"]
+    = VLeaves [(["dev1"; "openconfig"; "a"; "y"], SInt 7)] /\
+  selects ["dev1"] (stamp_paths "dev1" (replay s_sessions)) = [(["dev1"; "openconfig"; "a"; "y"], SInt 7)].
 Proof. vm_compute. split; reflexivity. Qed.
 
 (** regression witness for DEFECT C01_3 (fixed by 6b65ac8): prefix in elem, path
